@@ -40,6 +40,16 @@ TEMPLATES = [
 ]
 
 
+# Color BASIC reserved words the tool knows (pinned here, not read from the tool): as a variable name each
+# must be refused, or else treated like any other name in every position
+RESERVED = ['ABS', 'AND', 'ASC', 'ATN', 'ATTR', 'BRK', 'BUTTON', 'CHR', 'CLEAR', 'CLS', 'CMP', 'COS', 'DATA', 'DIM', 'ELSE', 'END',
+            'ERNO', 'ERR', 'EXP', 'FIX', 'FOR', 'GOSUB', 'GOTO', 'HBUFF', 'HCLS', 'HCOLOR', 'HEX', 'HLINE', 'HPAINT', 'HPRINT',
+            'HPUT', 'HRESET', 'HSCREEN', 'HSET', 'IF', 'INKEY', 'INPUT', 'INSTR', 'INT', 'JOYSTK', 'LEFT', 'LEN', 'LET', 'LINE',
+            'LOCATE', 'LOG', 'MID', 'NEXT', 'NOT', 'OPEN', 'OR', 'PALETTE', 'PEEK', 'PLAY', 'POINT', 'POKE', 'PRESET', 'PRINT',
+            'PSET', 'READ', 'REM', 'RESET', 'RESTORE', 'RETURN', 'RGB', 'RIGHT', 'RND', 'SET', 'SGN', 'SIN', 'SOUND', 'SQR',
+            'STEP', 'STOP', 'STR', 'STRING', 'TAB', 'TAN', 'THEN', 'TO', 'TROFF', 'TRON', 'VAL', 'VARPTR', 'WIDTH', 'ON', 'IN']
+
+
 def names(tier):
     r = rng("names-suite")
     one = list(LETTERS)
@@ -47,8 +57,8 @@ def names(tier):
     longer = ["".join(r.choice(LETTERS + DIGITS) for _ in range(n - 1)) for n in (3, 4, 4, 6) for _ in range(40)]
     longer = [r.choice(LETTERS) + x for x in longer]
     if tier == "thorough":
-        return one + two + longer
-    return one + r.sample(two, 120) + ["A1", "A2", "A1B", "AA", "AAA", "AAB", "AB1", "Z9", "Z99", "X0"] + longer[:40]
+        return one + two + longer + RESERVED
+    return one + r.sample(two, 120) + ["A1", "A2", "A1B", "AA", "AAA", "AAB", "AB1", "Z9", "Z99", "X0"] + longer[:40] + RESERVED
 
 
 def impl_ident(text, rx):
@@ -69,7 +79,7 @@ def cases(tier):
     ns = names(tier)
     out = []
     for n in ns:
-        tpls = TEMPLATES if tier == "thorough" or len(n) <= 2 and r.randrange(4) == 0 else r.sample(TEMPLATES, 5)
+        tpls = TEMPLATES if tier == "thorough" or n in RESERVED or len(n) <= 2 and r.randrange(4) == 0 else r.sample(TEMPLATES, 5)
         for kind, tpl, rx in tpls:
             out.append({"fmt": "names", "kind": kind, "name": n, "text": tpl.format(v=n), "rx": rx,
                         "req": f"xlname {kind} {hexs(n.encode())}"})
@@ -84,6 +94,18 @@ def run(tier):
     for k, i in enumerate(impl):
         if i.startswith("rejected"):
             model[k] = i
+    # a reserved word is outside the model's domain too: what matters for it is consistency (see oracle)
+    groups = {}
+    for k, c in enumerate(cs):
+        if c["name"] in RESERVED:
+            as_var = impl[k] == "ok " + hexs(expected(c["name"], c["kind"]).encode())
+            groups.setdefault((c["name"], c["kind"]), []).append((c["text"], as_var or impl[k].startswith("rejected")))
+            model[k] = impl[k]
+    for c in cs:
+        if c["name"] in RESERVED:
+            g = groups[(c["name"], c["kind"])]
+            # not_var: positions where the word is accepted but as something other than this variable
+            c["aux"] = {"not_var": [t for t, v in g if not v][:3]}
     dis = [{"req": c["text"], "kind": c["kind"], "model": m[:80], "impl": i[:80]}
            for c, m, i in zip(cs, model, impl) if m != i]
     return {"cases": cs, "model": model, "impl": impl, "disagreements": dis}
@@ -99,6 +121,14 @@ GENERATED = {"display", "play", "pid", "erno", "errnum", "ERNO", "joy0x", "joy0y
 
 
 def oracle(case, impl):
+    if case["name"] in RESERVED:
+        # a reserved word must not be a variable in one place and something else in another
+        aux = case.get("aux", {})
+        here = impl == "ok " + hexs(expected(case["name"], case["kind"]).encode())
+        if here and aux.get("not_var"):
+            return (f"the reserved word {case['name']} is taken as the {case['kind']} variable {expected(case['name'], case['kind'])} in "
+                    f"{case['text']!r} but not in {aux['not_var'][0]!r}")
+        return None
     if not impl.startswith("ok "):
         return None if impl.startswith("rejected") else f"no identifier found in the output for {case['text']!r}"
     from common import unhex
@@ -108,6 +138,15 @@ def oracle(case, impl):
         return f"{case['text']!r}: variable {case['name']} ({case['kind']}) became {ident!r}, Color BASIC identity needs {want!r}"
     if ident in GENERATED or ident.startswith("tmp_"):
         return f"user variable {case['name']} collides with the generated identifier {ident}"
+    return None
+
+
+DOLLAR_WORDS = {"CHR", "HEX", "INKEY", "MID", "RIGHT", "STR", "STRING", "LEFT"}
+
+
+def classify(case, impl, why):
+    if case["name"] in DOLLAR_WORDS and case["kind"] in ("str", "strarray"):
+        return "dollar-keyword-accepted-as-variable"
     return None
 
 
